@@ -117,3 +117,37 @@ PROPS["C06"] = dict(
     assumptions=COMMON_ASSUME[:1] + ["extents 0..5 per dimension", "array::assign(extensions, value) does not instantiate on the pinned tree (cast to a private base) and is not exercised",
                  "assign(first,last) is called with a non-empty range of non-empty rows (the library dereferences *first)"],
 )
+
+PROPS["C08"] = dict(
+    targets=[dict(name="C08", src="vp/props/C08.cpp", maxlen=2 + 8*10)],
+    quick=dict(cases=2500, floor=20000),
+    thorough=dict(cases=50000, floor=400000, fuzz=dict(time=360)),
+    level="exploration",
+    level_text=("Stateful testing with an instrumented element type (registry of live objects: construction over a live object, use or destruction of a dead one, double destruction are "
+                "reported at once) and an observing allocator (ledger of outstanding blocks, size-matched deallocate, painted fresh memory): generated histories of every constructor form, "
+                "copy, move, same- and different-extent assignment, the three reextent overloads, clear, swap, reshape, assign, destruction; after every step the live elements are exactly "
+                "those of the arrays and the outstanding blocks exactly their storage; at the end nothing is outstanding. Trivial elements created by sizing constructors / reextent without "
+                "value still hold the allocator's paint. Bounded exploration."),
+    technique="stateful testing of generated histories with a live-object registry and an allocation ledger as oracle (rapidcheck + libFuzzer)",
+    rule=("case = element type {Tracked (2/3), Pod (1/3)} x D in 1..3 + up to 10 history records over a pool of 4 arrays with an always-equal observing allocator; oracle = registry + ledger "
+          "invariants after every step and at the end, plus the value model of C04/C06. non-trivial = >= 3 operations with a storage-changing assignment or reextent on a non-empty array; "
+          "distinct = hash of decoded history text"),
+    assumptions=COMMON_ASSUME[:1] + ["extents 0..5 per dimension", "allocator identity/propagation is C10's subject: the allocator here is is_always_equal", "serialisation-load is exercised by C17 with the same instrumented element, not here"],
+)
+
+PROPS["C09"] = dict(
+    targets=[dict(name="C09", src="vp/props/C09.cpp", maxlen=3 + 8*6, kinds=["rc"])],
+    quick=dict(cases=2000, floor=16000),
+    thorough=dict(cases=12000, floor=100000),
+    level="fault_enumeration",
+    level_text=("Fault enumeration: for each generated history (<= 6 operations of the C08 machine) a fault-free dry run counts the events (allocations, element default/copy/move "
+                "constructions, element copy/move assignments); the history is then re-run once per injection point k (all k when there are at most 12, else a spread sample of 12; the "
+                "thorough tier uses all k up to 400) with event k throwing. The exception must reach the harness; every array must then be valid (extents agree with its live elements and its "
+                "block; readable; assignable by the rest of the history; destructible), nothing may leak or be released twice, a failed constructor leaves nothing behind, and operations that "
+                "need no new storage do not allocate. Two recorded known findings are tolerated by their exact symptom and counted."),
+    technique="fault injection at every enumerated event of generated histories, registry/ledger oracle (rapidcheck)",
+    rule=("case = D in 1..3 + up to 6 history records; evaluations = generated histories, each re-run at its injection points (counters fault_runs / faults_propagated_to_caller); "
+          "non-trivial = at least one injected fault propagated to the caller; distinct = hash of decoded history text incl. the injection points"),
+    assumptions=COMMON_ASSUME[:1] + ["events caused by the harness itself (argument temporaries, e.g. the backing arrays of initializer lists) are not faulted: g++ 12 and clang 14 do not destroy already built backing-array temporaries when a nested braced list throws while being materialised",
+                 "known findings tolerated by symptom (see known_findings.txt): block leak when an element throws inside a constructor; rows not rolled back in iterator-pair / nested-list construction for D >= 2"],
+)
